@@ -350,6 +350,29 @@ pub fn run09(ctx: &Ctx) -> i32 {
             }
         }
         acc3.nontriv += 5;
+        // angles written outside [0, 180]: a roof at 360 / 330 / 390 / -30 / 720 / -360 is a roof, a floor at -180 / 540 / 200 / -150
+        // is a floor - the volume V counts the second kind and not the first, whatever the way the angle is written
+        let roofs = [0.0f32, 360.0, 330.0, 390.0, -30.0, 720.0, -360.0, 300.0];
+        let floors = [180.0f32, -180.0, 540.0, 200.0, -150.0, 239.0, 120.0];
+        for (ri, rt) in roofs.iter().enumerate() {
+            for (fi, ft) in floors.iter().enumerate() {
+                for bounds in [BoundaryType::EXTERIOR, BoundaryType::GROUND] {
+                    let mut m = context("D3", [1.0, 2.0][(ri + fi) % 2]);
+                    m.walls[0].geometry.tilt = *ft;
+                    m.walls[0].bounds = bounds;
+                    m.walls.push(wall("R", BoundaryType::EXTERIOR, uid("wc"), uid("SI"), None, geom(*rt, 0.0, Some([0.0, 0.0, 3.0]), rect(5.0, 4.0))));
+                    m.walls.push(wall("X", BoundaryType::EXTERIOR, uid("wc"), uid("SI"), None, geom(90.0, 0.0, Some([0.0, 0.0, 0.0]), rect(5.0, 3.0))));
+                    m.windows.push(window("X_v", uid("winc"), uid("X"), Some([1.0, 1.0]), 1.5, 1.2, 0.0));
+                    for test in [None, Some(3.0)] {
+                        m.meta.n50_test_ach = test;
+                        if let Some(ind) = check_model(ctx, &m, &["n50"], &|| json!({"part": "angles-outside-0-180", "roof_tilt": rt, "floor_tilt": ft, "floor_bounds": format!("{:?}", bounds), "test": test}), &mut acc3, "") {
+                            acc3.outcomes.insert(ind.n50_data.n50.to_bits() as u64 ^ ((ind.n50_data.vol.to_bits() as u64) << 24));
+                            acc3.nontriv += 1;
+                        }
+                    }
+                }
+            }
+        }
     }
     for (name, m) in shipped_models() {
         for test in [None, Some(2.5f32)] {
@@ -371,7 +394,7 @@ pub fn run09(ctx: &Ctx) -> i32 {
     ctx.sample(json!({"part": "single", "cfg": g.describe(&g.unrank(1234)), "new_building": true, "n50_test": 3.0}));
     ctx.finish(
         "model_checking",
-        "the 4608 single-element configurations of C08 x {new, existing} x blower-door {None, 3.0} (+ a second window with another permeability), all 9216 ordered pairs of the 96-configuration core x test {None, 1.7}, corner cases (zero volume, wall fully replaced by its window, only ground/adiabatic/interior elements), 7 shipped models x {as is, with test}; oracle: the statement's formula in f64 (areas, C_o, sum C_h A_h, V, n50_ref), n50 == test value and back-substitution of the reported wall permeability into the same equation; non-trivial = some exterior envelope area",
+        "the 4608 single-element configurations of C08 x {new, existing} x blower-door {None, 3.0} (+ a second window with another permeability), all 9216 ordered pairs of the 96-configuration core x test {None, 1.7}, corner cases (zero volume, wall fully replaced by its window, only ground/adiabatic/interior elements), a box whose roof is written at tilt {0,360,330,390,-30,720,-360,300} x whose floor is written at {180,-180,540,200,-150,239,120} x floor {EXTERIOR,GROUND} x test {None,3.0} (224 models: the volume counts floors and not roofs however the angle is written), 7 shipped models x {as is, with test}; oracle: the statement's formula in f64 (areas, C_o, sum C_h A_h, V, n50_ref), n50 == test value and back-substitution of the reported wall permeability into the same equation; non-trivial = some exterior envelope area",
         true,
         json!({"singles": n, "pairs": np * 2}),
     )
